@@ -1,6 +1,7 @@
 import HickoryVerif.Drv.Proto
 import HickoryVerif.Model.AuthZone
 import HickoryVerif.Model.AuthZoneDev
+import HickoryVerif.Model.AuthZoneSigned
 
 /-!
 Case line (see `harness/src/props/c10.rs`):  `q <mode> <origin> <zone> <qname> <qtype> <do>`
@@ -14,7 +15,8 @@ def init : State := ()
 
 def tyTable : List (String × Nat) :=
   [("A", T_A), ("NS", T_NS), ("CNAME", T_CNAME), ("SOA", T_SOA), ("MX", T_MX), ("TXT", T_TXT),
-   ("AAAA", T_AAAA), ("DS", T_DS), ("ANY", T_ANY)]
+   ("AAAA", T_AAAA), ("DS", T_DS), ("ANY", T_ANY), ("RRSIG", T_RRSIG), ("NSEC", T_NSEC),
+   ("DNSKEY", T_DNSKEY)]
 
 def parseTy (s : String) : Option Nat := (tyTable.find? (·.1 == s)).map (·.2)
 
@@ -38,17 +40,34 @@ def showLName (n : LName) : String :=
   if n.isEmpty then "." else
   String.join (n.map fun l => String.ofList (l.map Char.ofNat) ++ ".")
 
-def parseRd (s : String) : Option RData :=
+def parseRdCore (s : String) : Option RData :=
   match s.splitOn "@" with
   | [t] => do pure { tag := ← t.toNat?, target := none }
   | [t, n] => do pure { tag := ← t.toNat?, target := some (← parseLName n) }
   | _ => none
 
+/-- `<tag>[@<target>][~T1,T2,…]` -/
+def parseRd (s : String) : Option RData :=
+  match s.splitOn "~" with
+  | [c] => parseRdCore c
+  | [c, tys] => do
+    let r ← parseRdCore c
+    let tys ← (tys.splitOn ",").mapM parseTy
+    pure { r with types := tys }
+  | _ => none
+
+/-- `<owner>/<TYPE>/<rd>+<rd>…[/s<labels>]` -/
 def parseRRset (s : String) : Option RRset :=
   match s.splitOn "/" with
   | [n, t, rds] => do
     let rds ← (rds.splitOn "+").mapM parseRd
     pure { name := ← parseLName n, type := ← parseTy t, rdatas := rds }
+  | [n, t, rds, sg] => do
+    let rds ← (rds.splitOn "+").mapM parseRd
+    let l ← match sg.toList with
+      | 's' :: ds => (String.ofList ds).toNat?
+      | _ => none
+    pure { name := ← parseLName n, type := ← parseTy t, rdatas := rds, sigLabels := some l }
   | _ => none
 
 def parseZone (s : String) : Option Zone :=
@@ -60,15 +79,32 @@ def showRd (r : RData) : String :=
   | none => toString r.tag
 
 def showRRset (r : RRset) : String :=
-  showLName r.name ++ "/" ++ showTy r.type ++ "/" ++ "+".intercalate (r.rdatas.map showRd)
+  showLName r.name ++ "/" ++ showTy r.type ++ "/" ++
+    (if r.type == T_NSEC then
+      "+".intercalate (r.rdatas.map fun rd =>
+        showLName (rd.target.getD []) ++ ":" ++ ",".intercalate (rd.types.map showTy))
+    else "+".intercalate (r.rdatas.map showRd))
 
-def showSection (l : List RRset) : String :=
-  if l.isEmpty then "-" else ";".intercalate (l.map showRRset)
+/-- with the DO bit every RRset is followed by its RRSIGs (`rrset_with_rrigs`) -/
+def showRRsetS (dnssecOk : Bool) (r : RRset) : String :=
+  match dnssecOk, r.sigLabels with
+  | true, some l =>
+    showRRset r ++ ";" ++ showLName r.name ++ "/RRSIG/" ++ showTy r.type ++ "." ++ toString l
+  | _, _ => showRRset r
+
+def showSectionS (dnssecOk : Bool) (l : List RRset) : String :=
+  if l.isEmpty then "-" else ";".intercalate (l.map (showRRsetS dnssecOk))
+
+def showSection (l : List RRset) : String := showSectionS false l
 
 def showRcode : Rcode → String
   | .noError => "NOERROR"
   | .nxDomain => "NXDOMAIN"
   | .refused => "REFUSED"
+
+def showResponseS (dnssecOk : Bool) (r : Response) : String :=
+  showRcode r.rcode ++ " aa=" ++ showBool r.aa ++ " an=" ++ showSectionS dnssecOk r.answers ++
+    " ns=" ++ showSectionS dnssecOk r.authority ++ " ar=" ++ showSectionS dnssecOk r.additional
 
 def showResponse (r : Response) : String :=
   showRcode r.rcode ++ " aa=" ++ showBool r.aa ++ " an=" ++ showSection r.answers ++
@@ -119,6 +155,13 @@ def handle (toks : List String) : Option String :=
     pure ("wf=" ++ showBool (zoneWF z o) ++ " classes=" ++ (if cs.isEmpty then "-" else ",".intercalate cs) ++
       " conf=" ++ showBool (conformsModAA (answerImpl z o q) (answerSpec MAX_CNAME_DEPTH z o q)) ++
       " aa=" ++ showBool ((answerImpl z o q).aa == (answerSpec MAX_CNAME_DEPTH z o q).aa))
+  | ["q", "n", origin, _zone, qname, qtype, dok, store] => do
+    let origin ← parseLName origin
+    let z ← parseZone store
+    let qn ← parseLName qname
+    let qt ← parseTy qtype
+    let dok := dok == "1"
+    pure (showResponseS dok (respondS z origin { name := lowerName qn, type := qt } dok true))
   | ["q", "u", origin, zone, qname, qtype, _do] => do
     let origin ← parseLName origin
     let z ← parseZone zone
